@@ -418,7 +418,13 @@ class Rewriter:
 
             else:
                 op = getattr(math, opname)
-            return like.context.constant(op(*args), like)
+            try:
+                value = op(*args)
+            except ValueError:
+                # e.g. math domain error from sqrt(-1): leave the
+                # expression as it is, evaluating it gives nan
+                return
+            return like.context.constant(value, like)
 
     def absolute(self, expr):
         (x,) = expr.operands
